@@ -572,11 +572,21 @@ pub struct DeepPersist {
     pub spec: Vec<(u8, bool, bool)>,
     pub backend: u8,
     pub trip: RoundTrip,
+    /// connectives of the chain: 0 and / or (as given per statement), 1 exclusive-or only, 2 equivalence only, 3 all mixed
+    /// (with exclusive-or / equivalence the diagram has 2^(n-1) paths: more than a machine word counts)
+    #[serde(default)]
+    pub parity: u8,
 }
 
 fn deep_persist_case() -> BoxedStrategy<DeepPersist> {
-    (65u8..=90, proptest::collection::vec((0u8..4, any::<bool>(), any::<bool>()), 90), 0u8..4, prop_oneof![Just(RoundTrip::SerdeJson), Just(RoundTrip::NodeList)])
-        .prop_map(|(n, spec, backend, trip)| DeepPersist { n, spec, backend, trip })
+    (
+        prop_oneof![3 => 65u8..=90, 1 => 60u8..=66],
+        proptest::collection::vec((0u8..4, any::<bool>(), any::<bool>()), 90),
+        0u8..4,
+        prop_oneof![Just(RoundTrip::SerdeJson), Just(RoundTrip::NodeList)],
+        prop_oneof![3 => Just(0u8), 1 => Just(1u8), 1 => Just(2u8), 1 => Just(3u8)],
+    )
+        .prop_map(|(n, spec, backend, trip, parity)| DeepPersist { n, spec, backend, trip, parity })
         .boxed()
 }
 
@@ -601,13 +611,14 @@ fn c14_deep(c: &DeepPersist, st: &mut Stats) -> CheckResult {
         let lit = if pol { F::Atom(i) } else { F::not(F::Atom(i)) };
         chain = Some(match chain {
             None => lit,
-            Some(rest) => {
-                if or {
-                    F::or(lit, rest)
-                } else {
-                    F::and(lit, rest)
-                }
-            }
+            Some(rest) => match (c.parity % 4, or) {
+                (1, _) => F::xor(lit, rest),
+                (2, _) => F::iff(rest, lit),
+                (3, true) if i % 3 == 0 => F::xor(rest, lit),
+                (3, false) if i % 3 == 0 => F::iff(lit, rest),
+                (_, true) => F::or(lit, rest),
+                (_, false) => F::and(lit, rest),
+            },
         });
     }
     acs[0] = chain.unwrap();
@@ -629,7 +640,7 @@ fn c14_deep(c: &DeepPersist, st: &mut Stats) -> CheckResult {
         if sut::names_of(&imp) != sut::names_of(&orig) {
             return Err(format!("{:?}: statement names differ after the round trip", c.trip));
         }
-        for call in [Call::Grounded, Call::Complete, Call::Stable, Call::StablePrefilter, Call::CountA, Call::StableNg(0), Call::TwoValNg(1)] {
+        for call in [Call::PathQueries, Call::Grounded, Call::Complete, Call::Stable, Call::StablePrefilter, Call::CountA, Call::StableNg(0), Call::StableNg(1), Call::TwoValNg(2), Call::PathQueries] {
             let a = calls::abstract_raw(&calls::exec(&mut imp, &call).map_err(|e| format!("re-imported {call:?}: {e}"))?, true);
             let b = calls::abstract_raw(&calls::exec(&mut orig, &call)?, true);
             if a != b {
